@@ -11,12 +11,17 @@
 (*  Dispatch - GaussianMultivariate: which distribution models each column for *)
 (*             every configuration form, and the Gaussian fallback when the    *)
 (*             configured distribution raises in fit.                          *)
+(*  History  - two selections in a row through the same candidate list (the     *)
+(*             same wrapper refitted, two wrappers / column copies sharing     *)
+(*             one list): the second answer is a function of the second        *)
+(*             outcome vector only - nothing a candidate did on earlier data   *)
+(*             (failing, winning) may change the candidate set.                *)
 (* Mode selects which family of cases the state machine walks through; each   *)
 (* case is emitted with the specification's expected answer.                   *)
 (***************************************************************************)
 EXTENDS Integers, Sequences, FiniteSets, TLC
 
-CONSTANTS Mode, MaxCand, MaxCols
+CONSTANTS Mode, MaxCand, MaxCols, MaxHist
 
 (* ---- Select ---------------------------------------------------------------------------------- *)
 Outcomes == 0..3
@@ -24,6 +29,11 @@ Fittable(o) == {i \in DOMAIN o : o[i] # 0}
 MinRank(o) == CHOOSE r \in {o[i] : i \in Fittable(o)} : \A j \in Fittable(o) : r <= o[j]
 Winners(o) == {i \in Fittable(o) : o[i] = MinRank(o)}
 SelectCases == UNION {{o \in [1..n -> Outcomes] : Fittable(o) # {}} : n \in 1..MaxCand}
+
+(* ---- History --------------------------------------------------------------------------------- *)
+\* <<first, second>>: outcome vectors of the same candidates on two data sets; the first selection may fail altogether
+HistoryCases == UNION {{<<a, b>> : a \in [1..n -> Outcomes], b \in {o \in [1..n -> Outcomes] : Fittable(o) # {}}} : n \in 1..MaxHist}
+HistoryWinners(h) == Winners(h[2])
 
 (* ---- Filter ---------------------------------------------------------------------------------- *)
 Classes == {"GaussianKDE", "BetaUnivariate", "GammaUnivariate", "GaussianUnivariate", "LogLaplace",
@@ -59,6 +69,7 @@ VARIABLES case, answered
 vars == <<case, answered>>
 Init == /\ answered = FALSE
         /\ CASE Mode = "select" -> case \in SelectCases
+             [] Mode = "history" -> case \in {h \in HistoryCases : h[1] # h[2]}
              [] Mode = "filter" -> case \in FilterCases
              [] Mode = "dispatch" -> case \in {c \in DispatchCases : ValidDispatch(c)}
 Answer == ~answered /\ answered' = TRUE /\ UNCHANGED case
@@ -67,11 +78,14 @@ Spec == Init /\ [][Next]_vars
 
 \* the decision procedures are total and never pick an unfittable candidate
 SelectTotal == Mode = "select" => Winners(case) # {} /\ \A i \in Winners(case) : case[i] # 0
+\* the second selection of a history is judged exactly like a first one
+HistoryFree == Mode = "history" => HistoryWinners(case) = Winners(case[2]) /\ HistoryWinners(case) # {}
 DispatchTotal == Mode = "dispatch" => \A i \in Cols(case.n) : ExpectedModel(case, i) \in {"configured", "default", "gaussian"}
 FallbackOnlyWhenRaising == Mode = "dispatch" => \A i \in Cols(case.n) : (ExpectedModel(case, i) = "gaussian") <=> (i \in case.raises)
 
 Emit == ~answered =>
   PrintT(<<"CASE", CASE Mode = "select" -> [outcomes |-> case, winners |-> Winners(case)]
+                     [] Mode = "history" -> [first |-> case[1], second |-> case[2], winners |-> HistoryWinners(case)]
                      [] Mode = "filter" -> [parametric |-> case[1], bounded |-> case[2], classes |-> Filtered(case)]
                      [] Mode = "dispatch" -> [n |-> case.n, form |-> case.form, named |-> case.named, raises |-> case.raises,
                                               expected |-> [i \in Cols(case.n) |-> ExpectedModel(case, i)]]>>)
